@@ -6,6 +6,7 @@ Model of the HDF5 persistence layer of pybrops (property C16).
   under its name, a nested dictionary replaces the earlier group), the typed readers,
   `h5py_File_read_dict` (after fix 9631bba1: scalar string members are decoded).  The pre-repair
   versions are kept as `…Prerepair` for the counterexamples only;
+* `TruePhenotyping.to_hdf5` after the repair of D30 (`require_group`; explicit groups are marker entries of the map);
 * the `to_hdf5` / `from_hdf5` pairs of DensePhasedGenotypeMatrix, DenseGenotypeMatrix,
   DenseBreedingValueMatrix, DenseCoancestryMatrix (through DenseTaxaMatrix),
   DenseTwoWayDHAdditiveGeneticVarianceMatrix (through DenseSquareTaxaTraitMatrix),
@@ -357,6 +358,69 @@ def constructVMatK (k : Nat) (o : Obj) : Except Err Obj := do
   optArrs o taxaMeta .int 1 none
   pure o
 
+/-! the base classes of `pybrops.core.mat` (each has a `to_hdf5` / `from_hdf5` / `__copy__` / `__deepcopy__` of its own) -/
+
+/-- DenseMatrix(mat): any array -/
+def constructDMat (o : Obj) : Except Err Obj := do
+  let _ ← needArr o "mat" .any none
+  pure o
+
+/-- DenseTaxaMatrix(mat, taxa, taxa_grp): taxa along axis 0, `mat.ndim ≥ 1` -/
+def constructTMat (o : Obj) : Except Err Obj := do
+  let mat ← needArr o "mat" .any none
+  chk (decide (1 ≤ mat.shape.length)) .shape
+  let n := mat.shape.getD 0 0
+  optArr o "taxa" .obj 1 (some n)
+  optArr o "taxa_grp" .int 1 (some n)
+  optArrs o taxaMeta .int 1 none
+  pure o
+
+/-- DenseVariantMatrix(mat, vrnt_…): variants along axis 0 -/
+def constructVrMat (o : Obj) : Except Err Obj := do
+  let mat ← needArr o "mat" .any none
+  chk (decide (1 ≤ mat.shape.length)) .shape
+  checkVrnt o (mat.shape.getD 0 0)
+  pure o
+
+/-- DenseTaxaVariantMatrix(mat, taxa, taxa_grp, vrnt_…): taxa along axis 0, variants along axis 1 -/
+def constructTVMat (o : Obj) : Except Err Obj := do
+  let mat ← needArr o "mat" .any none
+  chk (decide (2 ≤ mat.shape.length)) .shape
+  let n := mat.shape.getD 0 0
+  optArr o "taxa" .obj 1 (some n)
+  optArr o "taxa_grp" .int 1 (some n)
+  checkVrnt o (mat.shape.getD 1 0)
+  optArrs o taxaMeta .int 1 none
+  pure o
+
+/-- DenseTraitMatrix(mat, trait): traits along axis 0 -/
+def constructTrMat (o : Obj) : Except Err Obj := do
+  let mat ← needArr o "mat" .any none
+  chk (decide (1 ≤ mat.shape.length)) .shape
+  optArr o "trait" .obj 1 (some (mat.shape.getD 0 0))
+  pure o
+
+/-- DenseTaxaTraitMatrix(mat (n,t), taxa, taxa_grp, trait) -/
+def constructTTMat (o : Obj) : Except Err Obj := do
+  let mat ← needArr o "mat" .any none
+  chk (decide (2 ≤ mat.shape.length)) .shape
+  let n := mat.shape.getD 0 0
+  optArr o "taxa" .obj 1 (some n)
+  optArr o "taxa_grp" .int 1 (some n)
+  optArr o "trait" .obj 1 (some (mat.shape.getD 1 0))
+  optArrs o taxaMeta .int 1 none
+  pure o
+
+/-- DenseSquareTaxaSquareTraitMatrix(mat (n,n,t,t), taxa, taxa_grp, trait) and the progeny covariance matrices -/
+def constructSq4 (o : Obj) : Except Err Obj := do
+  let mat ← needArr o "mat" .any (some 4)
+  let n := mat.shape.getD 0 0
+  optArr o "taxa" .obj 1 (some n)
+  optArr o "taxa_grp" .int 1 (some n)
+  optArr o "trait" .obj 1 (some (mat.shape.getD 2 0))
+  optArrs o taxaMeta .int 1 none
+  pure o
+
 def emptyRows (t : Nat) : DS := ⟨.f64, [0, t], [], [], []⟩
 
 /-- the `u_misc`/`u_a`/`u_d` setters: `None` ⇒ `numpy.empty((0,t))` -/
@@ -460,6 +524,15 @@ def geSchema (t : Nat) : Schema :=
   ⟨"ge", [fReq "nenv" .scalarInt, fReq "nrep" .int64, fOpt "var_env", fOpt "var_rep", fOpt "var_err"],
    constructGE t⟩
 
+def dmatSchema : Schema := ⟨"dmat", [fReq "mat"], constructDMat⟩
+def tmatSchema : Schema := ⟨"tmat", [fReq "mat"] ++ taxaFields ++ taxaMetaFields, constructTMat⟩
+def vrmatSchema : Schema := ⟨"vrmat", [fReq "mat"] ++ vrntFields ++ vrntMetaFields, constructVrMat⟩
+def tvmatSchema : Schema :=
+  ⟨"tvmat", [fReq "mat"] ++ taxaFields ++ vrntFields ++ taxaMetaFields ++ vrntMetaFields, constructTVMat⟩
+def trmatSchema : Schema := ⟨"trmat", [fReq "mat", fOpt "trait" .utf8arr], constructTrMat⟩
+def ttmatSchema : Schema := ⟨"ttmat", vmatSchema.fields, constructTTMat⟩
+def sq4Schema : Schema := ⟨"sq4", vmatSchema.fields, constructSq4⟩
+
 /-- TruePhenotyping(gpmod): no stored parameter at all — `to_hdf5` hands an EMPTY dictionary to
     `h5py_File_write_dict`, `from_hdf5` reads nothing and builds the protocol around the model it is given -/
 def tpSchema : Schema := ⟨"tp", [], fun o => pure o⟩
@@ -477,6 +550,14 @@ def schemaOf (name : String) (ctx : Nat) : Option Schema :=
   | "adlgmod" => some adlgSchema
   | "ge" => some (geSchema ctx)
   | "tp" => some tpSchema
+  | "dmat" => some dmatSchema
+  | "tmat" => some tmatSchema
+  | "vrmat" => some vrmatSchema
+  | "tvmat" => some tvmatSchema
+  | "trmat" => some trmatSchema
+  | "ttmat" => some ttmatSchema
+  | "sttmat" => some vmatSchema        -- DenseSquareTaxaTraitMatrix: the parent of the two-way variance matrices
+  | "sq4" => some sq4Schema
   | _ => none
 
 /-! ### `to_hdf5` / `from_hdf5` -/
@@ -492,6 +573,39 @@ def toHdf5G (fixed : Bool) (f : File) (gname : Option String) (ow : Bool) (o : O
   match groupPath gname with
   | .error e => (f, some e)
   | .ok g => if fixed then writeItems g ow f o else writeItemsPrerepair g ow f o
+
+/-! ### explicit (possibly empty) groups: `h5file.require_group`
+
+In the finite map `path ↦ dataset` a group that was created on purpose is represented by a *marker* entry
+at `g ++ [markKey]`.  `markKey` is the empty string: `parsePath` never yields an empty component and no
+class has an empty field name, so a marker can never collide with a dataset.  With this representation
+`mem f g` ("`g in h5file`") is true for `g` and for every ancestor of `g` (h5py creates the intermediate
+groups as well), `del f p` removes the marker together with `p` when `p` is `g` or an ancestor, and
+`create` of a dataset below `g` is not hindered.  Groups that `create_dataset` makes implicitly are not
+tracked: they never become empty in a history of complete `to_hdf5` calls. -/
+
+def markKey : String := ""
+def markDS : DS := ⟨.bool, [], [], [], []⟩
+
+/-- `h5file.require_group(g)`: nothing happens when the group object is there already; otherwise it is created —
+    which fails when `g` or one of its ancestors is a dataset -/
+def requireGroup (f : File) (g : Path) : File × Option Err :=
+  if mem f (g ++ [markKey]) then (f, none) else create f (g ++ [markKey]) markDS
+
+/-- `TruePhenotyping.to_hdf5(file, groupname, overwrite)` as it is after the repair of D30: the protocol has no
+    parameter of its own, so the (empty) dictionary writes nothing; `if groupname != "": h5file.require_group(groupname)`
+    makes the named group exist all the same (`"/"` is the root: nothing to create) -/
+def toHdf5TP (f : File) (gname : Option String) (ow : Bool) : File × Option Err :=
+  match groupPath gname with
+  | .error e => (f, some e)
+  | .ok g =>
+    match (if g == [] then (f, none) else requireGroup f g) with
+    | (f', none) => writeItems g ow f' []
+    | r => r
+
+/-- `TruePhenotyping.to_hdf5` BEFORE the repair of D30 (kept for the counterexample): only the empty dictionary -/
+def toHdf5TPPrerepair (f : File) (gname : Option String) (ow : Bool) : File × Option Err :=
+  toHdf5G true f gname ow []
 
 /-- the reading half of `from_hdf5` before the constructor is called -/
 def checkRequired (f : File) (g : Path) : List Field → Except Err Unit
@@ -574,6 +688,36 @@ def runHistG (fixed : Bool) : File → List Write → File × Option Err
   | f, w :: rest =>
     match (if fixed then writeItems w.g true f w.obj else writeItemsPrerepair w.g true f w.obj) with
     | (f', none) => runHistG fixed f' rest
+    | r => r
+
+/-! ### histories in which some classes make their group first (TruePhenotyping) -/
+
+/-- only `TruePhenotyping.to_hdf5` calls `h5file.require_group(groupname)` (it has no dataset that would make
+    the group exist) -/
+def requiresGroup (sch : Schema) : Bool := sch.name == "tp"
+
+/-- one `to_hdf5` call of a history over all classes: `grp` = the class's `to_hdf5` makes the named group first -/
+structure WriteX where
+  g : Path
+  obj : Obj
+  grp : Bool
+  deriving Repr
+
+/-- the `to_hdf5` call of an object of class `sch` to the group `g` -/
+def writeOf (sch : Schema) (g : Path) (o : Obj) : WriteX := ⟨g, o, requiresGroup sch⟩
+
+/-- one overwriting `to_hdf5` call (`if groupname != "": require_group` for the classes that do it) -/
+def stepX (f : File) (x : WriteX) : File × Option Err :=
+  match (if x.grp && x.g != [] then requireGroup f x.g else (f, none)) with
+  | (f', none) => writeItems x.g true f' x.obj
+  | r => r
+
+/-- a history of overwriting writes of any classes starting from `f`; stops at the first failing write -/
+def runHistX : File → List WriteX → File × Option Err
+  | f, [] => (f, none)
+  | f, x :: rest =>
+    match stepX f x with
+    | (f', none) => runHistX f' rest
     | r => r
 
 /-! ### the code as it is now, and the two pre-repair entry points -/
